@@ -40,6 +40,12 @@ Theorem C03_history_every_prefix : forall h1 h2 p l hdr pay, repr p l hdr pay ->
 Proof. exact history_every_prefix. Qed.
 Print Assumptions C03_history_every_prefix.
 
+(* the encoding is faithful in the strong sense: a packet encodes at most one logical value *)
+Theorem C03_encoding_injective : forall p l1 l2 hdr1 hdr2 pay1 pay2,
+  repr p l1 hdr1 pay1 -> repr p l2 hdr2 pay2 -> l1 = l2 /\ hdr1 = hdr2 /\ pay1 = pay2.
+Proof. exact repr_unique. Qed.
+Print Assumptions C03_encoding_injective.
+
 (* byte-level frame: the four header bytes, adaptation_field_length and the payload are untouched by any history *)
 Theorem C03_frame_history : forall p l hdr pay h, repr p l hdr pay -> Forall op_ok h ->
   takeN 5 (AF.run p h) = takeN 5 p /\ dropN (5 + l_len l) (AF.run p h) = dropN (5 + l_len l) p /\
